@@ -8,15 +8,19 @@
                         Pending; signal sets the result, takes the stored waker and calls it (single-step facts);
      detached / dropped / never polled futures: the job is owned by the queue and runs: PropsC06.C06_terminal_partial_L2.
    MISSING ([C07_complete_full], Main.v, only stated): "the awaiting task is always woken" as a global statement (every caller has
-   finished in a terminal state).  The invariant for it (Task.task_ok) is written down and holds on all simulated runs; not proved.
+   finished in a terminal state).  The invariant for it (Task.task_ok) is written down and holds on all simulated runs; two of its three clauses are proved
+   ([C07_task_parts]), the third (Task.tw_ok) is not.
    The signaller's Drop (Canceled) is not modelled: a queued job is never dropped in this model. *)
-From L2 Require Import Model Fut Sig Task Term Main.
+From L2 Require Import Model Fut Sig Task TaskInv Term Main.
 Theorem C07_safety_partial_L2 : C07_safety.
 Proof. exact C07_safety_main. Qed.
 Theorem C07_value_L2 : C07_value.
 Proof. exact C07_value_main. Qed.
 Theorem C07_waker_steps_L2 : C07_waker_steps.
 Proof. exact C07_waker_steps_main. Qed.
+Theorem C07_task_parts_L2 : C07_task_parts.
+Proof. exact C07_task_parts_main. Qed.
 Print Assumptions C07_safety_partial_L2.
 Print Assumptions C07_value_L2.
 Print Assumptions C07_waker_steps_L2.
+Print Assumptions C07_task_parts_L2.
